@@ -32,13 +32,13 @@ COLUMNS_ZERO_COUNT = 0
 # 1 = Console.render_lines(..., style=s) restyles the rendered segments but pads short lines with style None, so the blanks that
 #     complete a child's line inside Panel(style=…) are unstyled (finding panel-content-pad-unstyled);
 #     0 = the repair in pending_fixes/C08-render-lines-pad-style.diff is applied.
-LINES_PAD_UNSTYLED = 1
+LINES_PAD_UNSTYLED = 0
 # 1 = Panel renders its title with console.render(title_text) — at console.width, not at the width it aligned the title to — so a
 #     panel rendered with options wider than the console gets a cropped top border (finding panel-title-at-console-width);
 #     0 = the repair in pending_fixes/C08-panel-title-width.diff is applied.
-TITLE_AT_CONSOLE_WIDTH = 1
+TITLE_AT_CONSOLE_WIDTH = 0
 # 1 = a Rule without title ignores its `end` option (rule.py:62); 0 = the repair in pending_fixes/C08-rule-no-title-end.diff is applied.
-RULE_NO_TITLE_END = 1
+RULE_NO_TITLE_END = 0
 VARIANT = (ZERO_WIDTH_CHILD + 2 * RULE_RIGHT_REPEAT + 4 * RSTRIP_COUNTS_CHARS + 8 * COLUMNS_ZERO_COUNT + 16 * LINES_PAD_UNSTYLED
            + 32 * TITLE_AT_CONSOLE_WIDTH + 64 * RULE_NO_TITLE_END)
 
